@@ -28,6 +28,8 @@ pub fn bre(e: &BitReaderError) -> String {
 /// does a Debug rendering of an error mention WouldBlock? (the class the syntax parsers are compared on)
 /// diagnostic mode (`VERIF_FULL_ERR=1`): SPS / PPS / slice errors are printed in full instead of by class
 pub fn err_show<E: std::fmt::Debug>(e: &E) -> String { if std::env::var("VERIF_FULL_ERR").is_ok() { format!("Err {:?}", e) } else { err_class(e).to_string() } }
+/// level_idc plus `b` for Level 1b (the only two enum values sharing an idc)
+pub fn level_str(l: h264_reader::nal::sps::Level) -> String { format!("{}{}", l.level_idc(), if l == h264_reader::nal::sps::Level::L1_b { "b" } else { "" }) }
 pub fn err_class<E: std::fmt::Debug>(e: &E) -> &'static str { if format!("{:?}", e).contains("WouldBlock") { "WouldBlock" } else { "Err" } }
 
 #[derive(Default)]
@@ -254,7 +256,7 @@ impl Runner {
             Ok(a) => {
                 let nsps = a.num_of_sequence_parameter_sets();
                 let fields = format!("v={} n={} prof={} compat={} level={} lsm1={}", a.configuration_version(), nsps,
-                    u8::from(a.avc_profile_indication()), u8::from(a.profile_compatibility()), a.avc_level_indication().level_idc(), a.length_size_minus_one());
+                    u8::from(a.avc_profile_indication()), u8::from(a.profile_compatibility()), level_str(a.avc_level_indication()), a.length_size_minus_one());
                 let sps = render_avcc_iter(&mut a.sequence_parameter_sets(), 40);
                 let pps = render_avcc_iter(&mut a.picture_parameter_sets(), 300);
                 let ctx = match a.create_context() {
@@ -364,7 +366,7 @@ impl Runner {
                     (Some(_), None) => "Some-without-timing".to_string(),
                 };
                 let codec = format!("{}", s.rfc6381());
-                format!("Ok dims={} fps={} codec={} mbs={},{},{} profile={} level={} log2fn={}", dims, fps, codec, s.pic_width_in_mbs(), s.pic_height_in_map_units(), s.pic_size_in_map_units(), s.profile().profile_idc(), s.level().level_idc(), s.log2_max_frame_num())
+                format!("Ok dims={} fps={} codec={} mbs={},{},{} profile={} level={} log2fn={}", dims, fps, codec, s.pic_width_in_mbs(), s.pic_height_in_map_units(), s.pic_size_in_map_units(), s.profile().profile_idc(), level_str(s.level()), s.log2_max_frame_num())
             }
             Err(e) => err_class(&e).into(),
         }
